@@ -48,6 +48,7 @@ type C14Scenario struct {
 	QSize   int          `json:"qsize"`
 	Callers [][]laneCall `json:"callers"`
 	StopK   int          `json:"stop_k"` // -1: stop only at the end; else a stopper task stops after k yields
+	RunK    int          `json:"run_k"`  // 0: Run before the first call (the usual order); k > 0: a starter task calls Run after k-1 yields, so calls - and Stop - may come first
 }
 
 var hashes = []int{0, 1, -1, 2, 3, 5, -5, 7, math.MaxInt, math.MinInt, math.MinInt + 1, 1 << 40, -(1 << 40)}
@@ -58,6 +59,7 @@ func drawC14(rt *rapid.T) interface{} {
 	sc.Slots = rapid.SampledFrom([]int{1, 2, 3, 5}).Draw(rt, "slots")
 	sc.QSize = rapid.SampledFrom([]int{1, 2, 8}).Draw(rt, "qsize")
 	sc.StopK = rapid.SampledFrom([]int{-1, -1, 0, 1, 2, 4, 8}).Draw(rt, "stopk")
+	sc.RunK = rapid.SampledFrom([]int{0, 0, 0, 1, 2, 5, 12}).Draw(rt, "runk")
 	nc := rapid.IntRange(2, hx.Pick(5, 7)).Draw(rt, "ncallers")
 	id := 1
 	for i := 0; i < nc; i++ {
@@ -224,9 +226,24 @@ func runC14(t *testing.T, sci interface{}, keepLog bool) *hx.Outcome {
 			wg := &simsync.WaitGroup{}
 			ex = &runnerEx{r: async.NewRunnerQ(async.WithQSize(sc.QSize), async.WithWaitGroup(wg), async.WithName("sim")), mode: sc.Kind, wg: wg}
 		}
-		ex.Run()
-		if sc.Kind != "mline" {
-			ex.Run() // starting twice is a no-op for the executors that guard Run with a Once (the multi-line executor does not)
+		var starter *simrt.Task
+		if sc.RunK == 0 {
+			ex.Run()
+			if sc.Kind != "mline" {
+				ex.Run() // starting twice is a no-op for the executors that guard Run with a Once (the multi-line executor does not)
+			}
+		} else {
+			starter = simrt.GoNamed("starter", func() {
+				for i := 1; i < sc.RunK; i++ {
+					simrt.Yield()
+				}
+				s.Logf("run invoked (late)")
+				if stopInvoked {
+					s.Count("run-after-stop")
+				}
+				ex.Run()
+				s.Count("late-run")
+			})
 		}
 		started = true
 		var callers []*simrt.Task
@@ -376,6 +393,9 @@ func runC14(t *testing.T, sci interface{}, keepLog bool) *hx.Outcome {
 				s.Count("stop-mid-run")
 			})
 		}
+		if starter != nil {
+			hx.WaitDone(s, starter)
+		}
 		hx.WaitDone(s, callers...)
 		if stopper != nil {
 			hx.WaitDone(s, stopper)
@@ -431,9 +451,9 @@ func TestC14(t *testing.T) {
 		Run:         runC14,
 		Real:        []string{"syncx/pipe/line, mline, async (RunnerQ: AsyncCall/AsyncDelegate/AsyncProc, ProcChan), pipe/q, async.Q, pipe.NormalizeSlotIndex (simgen-transformed)", "reflect (AsyncCall)", "ulog/zap (silenced)"},
 		Stubs:       []string{"sync (simsync)", "context.Context (hx.SimCtx)", "goroutine scheduling and select choice (simrt)"},
-		Rule: "scenario = executor kind x lanes {1,2,3,5} x queue size {1,2,8} x 2-5 callers x 1-4 calls (hash incl. negative, MaxInt, MinInt; ctx background / pre-cancelled / cancelled by a canceller task; callee yields 0-2 times, may fail) x Stop placement (stopper task after k yields, or at the end) x scheduler knobs/tape incl. select order; " +
+		Rule: "scenario = executor kind x lanes {1,2,3,5} x queue size {1,2,8} x 2-5 callers x 1-4 calls (hash incl. negative, MaxInt, MinInt; ctx background / pre-cancelled / cancelled by a canceller task; callee yields 0-2 times, may fail) x Stop placement (stopper task after k yields, or at the end) x Run placement (before the first call, or by a starter task after k yields: calls and Stop may precede Run) x scheduler knobs/tape incl. select order; " +
 			"non-trivial = >=2 tasks and >=1 switch; distinct = distinct event-log hash",
-		Probes: []string{"call-observed-accepted", "stop-mid-run", "refused-full", "caller-got-ctx-error", "ctx-ended"},
+		Probes: []string{"call-observed-accepted", "stop-mid-run", "late-run", "run-after-stop", "refused-full", "caller-got-ctx-error", "ctx-ended"},
 		Assumptions: []string{"'accepted before' is known only when the earlier call was observed blocked waiting for its result (or had returned) before the later one was invoked",
 			"order across lanes of the multi-line executor is checked for equal hashes only (equal hash => same lane)"},
 	})
